@@ -212,7 +212,8 @@ def check_case(case: dict, res: Result):
     method_has_stop = any(ln.strip().split(":")[0].strip() in ("Stop", "Restart") for ln in text.split("\n"))
     # an Unpause / Unhold / Start engine command that executes in the command phase of the failing tick (after the
     # interpreter phase) legitimately overrides the pause within that tick
-    unpause_in_code = "Unpause" in text or "Unhold" in text
+    # (a Pause/Hold with a duration ends with an internal Unpause/Unhold in the command phase)
+    unpause_in_code = bool(_UNPAUSE_RE.search(text))
     last_unpause = -10
     try:
         if not rig.user("Start"):
@@ -221,7 +222,7 @@ def check_case(case: dict, res: Result):
             rig.hw.inputs["FT01"] = case["traj"][k]
             for sn in injects.get(k, ()):
                 res.count("inject_calls")
-                if "Unpause" in sn or "Unhold" in sn:
+                if _UNPAUSE_RE.search(sn):
                     unpause_in_code = True
                 try:
                     rig.e.inject_code(sn)
@@ -331,7 +332,12 @@ def check_case(case: dict, res: Result):
                             if node is not None and any(type(a).__name__ == "MacroNode" and a.run_started_count > 0
                                                         for a in node.parents):
                                 in_macro = True
+                        # a macro defined by *injected* code (negative node id) that has been called makes the
+                        # validation reject every later edit ("may not be deleted": it is not a method line)
+                        inj_macro = any(_re.fullmatch(r"-\d+", str(m.id)) and m.run_started_count > 0
+                                        for m in mm.program.macros.values())
                         viol.append(("C13.failed_line_in_started_macro_cannot_be_corrected" if in_macro
+                                     else "C13.injected_started_macro_blocks_live_edit" if inj_macro
                                      else "C13.corrected_method_rejected",
                                      f"correcting failed line(s) {failed} rejected: {ex}"[:400]))
                     except Exception as ex:
@@ -356,10 +362,16 @@ def check_case(case: dict, res: Result):
                     viol.append(("C13.stop_rejected_after_error", f"Stop rejected in state {rig.state} after an error"))
                 else:
                     ok = False
+                    late_failure = False
                     for j in range(4):
                         nexc = len(rig.tick_exc)
+                        ne0 = len(errs)
                         rig.tick(catch=True)
                         res.count("ticks")
+                        if len(errs) > ne0 and not rig.e._runstate_started and rig.state == "Paused":
+                            # Stop completed in this tick (run no longer started) and a command that was still in the
+                            # old command manager's list failed afterwards in the same command phase
+                            late_failure = True
                         if len(rig.tick_exc) > nexc:
                             viol.append((None, f"Engine.tick raised while stopping at tick {rig.k}: "
                                                             f"{rig.tick_exc[-1][1]}"))
@@ -368,8 +380,10 @@ def check_case(case: dict, res: Result):
                             ok = True
                             break
                     if not ok and not rig.tick_exc:
-                        viol.append(("C13.stop_not_reached_after_error",
-                                     f"Stop accepted after an error but System State={rig.state} after 4 ticks"))
+                        viol.append(("C13.command_failing_after_stop_completed_leaves_paused" if late_failure
+                                     else "C13.stop_not_reached_after_error",
+                                     f"Stop accepted after an error but System State={rig.state} after 4 ticks "
+                                     f"(run started flag {rig.e._runstate_started}, errors {rig.errors[-1:]})"))
         elif err:
             res.count("error_runs_not_post_checked")
         nontrivial = err or inject_ok > 0 or accepted_users > 0
@@ -384,6 +398,10 @@ def check_case(case: dict, res: Result):
             continue
         seen.add((mech, msg))
         res.violation(mech, msg, case)
+
+
+import re as _re
+_UNPAUSE_RE = _re.compile(r"Unpause|Unhold|(Pause|Hold)\s*:")
 
 
 def _line(text: str, lid: str) -> str:
